@@ -221,6 +221,39 @@ def strOf (v : PyVal) : R String :=
   | .str s => pure s
   | _ => throw .typeError
 
+/-- "If activation is present, add activation here": the configured `activation_quantizer`
+    if truthy, else `quantize_activation` (same four lines in every weight-layer branch) -/
+def actStep (look : Look) (qn : String) (bits : String) (l : PyVal) : R PyVal := do
+  let aq ← look qn (some "activation_quantizer")
+  if truthy aq then setCfg l "activation" aq else quantActIn l bits
+
+/-- `if layer_config["use_bias"]: bias_quantizer = get_config(...) else: bias_quantizer = None` -/
+def biasLook (look : Look) (qn : String) (ub : PyVal) : R PyVal :=
+  if truthy ub then look qn (some "bias_quantizer") else pure .none
+
+/-- the `registered_name` fix-up inside `quantize_rnn` (utils.py:724-726) -/
+def rnnRegistered (qn : String) (l : PyVal) : R PyVal := do
+  let (l, reg) ← popReg l
+  if truthy reg then setItem l "registered_name" (.str qn) else pure l
+
+/-- "If recurrent activation is present, add activation here." (utils.py:716-721) -/
+def recActStep (look : Look) (cn qn : String) (l : PyVal) : R PyVal :=
+  if cn = "LSTM" ∨ cn = "GRU" then do
+    let ra ← look qn (some "recurrent_activation_quantizer")
+    if truthy ra then setCfg l "recurrent_activation" ra else pure l
+  else pure l
+
+/-- tail of `quantize_rnn` once the kernel quantizer is known to be not None (703-726) -/
+def rnnApply (look : Look) (bits : String) (cn qn : String) (kq rq bq sq : PyVal) (l : PyVal) : R PyVal := do
+  let l ← setCfg l "kernel_quantizer" kq
+  let l ← setCfg l "recurrent_quantizer" rq
+  let l ← setCfg l "bias_quantizer" bq
+  let l ← setCfg l "state_quantizer" sq
+  let l ← actStep look qn bits l
+  let l ← recActStep look cn qn l
+  let l ← setCls l qn
+  rnnRegistered qn l
+
 /-! ## `quantize_rnn` (utils.py:684-726) -/
 
 def quantizeRnn (look : Look) (bits : String) (l : PyVal) : R PyVal := do
@@ -229,204 +262,242 @@ def quantizeRnn (look : Look) (bits : String) (l : PyVal) : R PyVal := do
   let kq ← look qn (some "kernel_quantizer")
   let rq ← look qn (some "recurrent_quantizer")
   let ub ← sub (← sub l "config") "use_bias"
-  let bq ← if truthy ub then look qn (some "bias_quantizer") else pure .none
+  let bq ← biasLook look qn ub
   let sq ← look qn (some "state_quantizer")
   match kq with
   | .none => pure l            -- "This is to avoid unwanted transformations."
-  | _ =>
-    let l ← setCfg l "kernel_quantizer" kq
-    let l ← setCfg l "recurrent_quantizer" rq
-    let l ← setCfg l "bias_quantizer" bq
-    let l ← setCfg l "state_quantizer" sq
-    let act ← look qn (some "activation_quantizer")
-    let l ← if truthy act then setCfg l "activation" act else quantActIn l bits
-    let l ← if cn = "LSTM" ∨ cn = "GRU" then do
-              let ra ← look qn (some "recurrent_activation_quantizer")
-              if truthy ra then setCfg l "recurrent_activation" ra else pure l
-            else pure l
-    let l ← setCls l qn
-    let (l, reg) ← popReg l
-    if truthy reg then setItem l "registered_name" (.str qn) else pure l
+  | _ => rnnApply look bits cn qn kq rq bq sq l
 
 /-! ## the branches of the loop body.  Result: (layer, q_name afterwards, reached the end of
     the loop body (`false` = `continue`)) -/
 
 abbrev BranchRes := R (PyVal × Option String × Bool)
 
+/-- the three `layer_config[...] = ...` of the folding arm (utils.py:742-753 / 797-808) -/
+def foldPrep (look : Look) (qn : String) (l : PyVal) : R PyVal := do
+  let l ← setCfg l "use_bias" (.bool true)
+  let fm ← look qn (some "folding_mode")
+  let l ← setCfg l "folding_mode" (if truthy fm then fm else .str "ema_stats_folding")
+  let efd ← look qn (some "ema_freeze_delay")
+  setCfg l "ema_freeze_delay" (if truthy efd then efd else .none)
+
+/-- the folding condition: `[class test and] enable_bn_folding and layer["name"] in layers_to_fold` -/
+def foldCond (F : Flags) (canFold : Bool) (l : PyVal) : R Bool :=
+  if canFold && F.folding then do pure (F.inFold (← sub l "name")) else pure false
+
+/-- folding arm or plain arm: (layer, q_name) -/
+def foldStep (look : Look) (foldHere : Bool) (foldName plainName : String) (l : PyVal) : R (PyVal × String) :=
+  if foldHere then do pure (← foldPrep look foldName l, foldName) else pure (l, plainName)
+
+/-- "Tries none-folded layer quantizer as a back up." (utils.py:766-774 / 823-828) -/
+def backupLook (look : Look) (kernelKey qn foldName plainName : String) (kq bq : PyVal) : R (PyVal × PyVal) :=
+  if (match kq with | .none => true | _ => false) && decide (qn = foldName) then do
+    let kq ← look plainName (some kernelKey)
+    let bq ← look plainName (some "bias_quantizer")
+    pure (kq, bq)
+  else pure (kq, bq)
+
+/-- tail of the Dense/Conv/Depthwise branches once the kernel quantizer is not None (780-792) -/
+def convApply (look : Look) (bits : String) (kernelKey qn : String) (kq bq : PyVal) (l : PyVal) : R PyVal := do
+  let l ← setCls l qn
+  let l ← setCfg l kernelKey kq
+  let l ← setCfg l "bias_quantizer" bq
+  actStep look qn bits l
+
 /-- Dense / Conv1D / Conv2D / Conv2DTranspose / SeparableConv1D / SeparableConv2D
     (utils.py:734-792) and DepthwiseConv2D (794-845): the two branches are the same text up to
     the kernel key, the class test of the folding condition and the two class names. -/
 def convBranch (F : Flags) (look : Look) (kernelKey : String) (canFold : Bool)
     (foldName plainName : String) (l : PyVal) : BranchRes := do
-  let foldHere ← if canFold && F.folding then (do pure (F.inFold (← sub l "name"))) else pure false
-  let (l, qn) ←
-    if foldHere then do
-      let qn := foldName
-      let l ← setCfg l "use_bias" (.bool true)
-      let fm ← look qn (some "folding_mode")
-      let l ← setCfg l "folding_mode" (if truthy fm then fm else .str "ema_stats_folding")
-      let efd ← look qn (some "ema_freeze_delay")
-      let l ← setCfg l "ema_freeze_delay" (if truthy efd then efd else .none)
-      pure (l, qn)
-    else pure (l, plainName)
-  let kq ← look qn (some kernelKey)
-  let ub ← sub (← sub l "config") "use_bias"
-  let bq ← if truthy ub then look qn (some "bias_quantizer") else pure .none
-  let isNone := match kq with | .none => true | _ => false
-  let (kq, bq) ←
-    if isNone && decide (qn = foldName) then do
-      let kq ← look plainName (some kernelKey)
-      let bq ← look plainName (some "bias_quantizer")
-      pure (kq, bq)
-    else pure (kq, bq)
-  match kq with
-  | .none => pure (l, some qn, false)
-  | _ =>
-    let l ← setCls l qn
-    let l ← setCfg l kernelKey kq
-    let l ← setCfg l "bias_quantizer" bq
-    let aq ← look qn (some "activation_quantizer")
-    let l ← if truthy aq then setCfg l "activation" aq else quantActIn l F.actBits
-    pure (l, some qn, true)
+  let foldHere ← foldCond F canFold l
+  let lq ← foldStep look foldHere foldName plainName l
+  let kq ← look lq.2 (some kernelKey)
+  let ub ← sub (← sub lq.1 "config") "use_bias"
+  let bq ← biasLook look lq.2 ub
+  let kb ← backupLook look kernelKey lq.2 foldName plainName kq bq
+  match kb.1 with
+  | .none => pure (lq.1, some lq.2, false)
+  | _ => do pure (← convApply look F.actBits kernelKey lq.2 kb.1 kb.2 lq.1, some lq.2, true)
+
+/-- the inner layer of a Bidirectional wrapper: the one-entry dictionary
+    `{inner_name: get_config(quantizer_config, layer, "QBidirectional")}` and `quantize_rnn` -/
+def bidirInner (look : Look) (bits : String) (inner : PyVal) : R PyVal := do
+  let iname ← sub (← sub inner "config") "name"
+  let entry ← look "QBidirectional" none
+  hashable iname
+  quantizeRnn (fun _ p => paramOf entry p) bits inner
+
+/-- `if "backward_layer" in layer_config: ...` -/
+def bidirBackward (look : Look) (bits : String) (l : PyVal) : R PyVal := do
+  let cfg ← sub l "config"
+  match cfg with
+  | .dict d =>
+    match dget d "backward_layer" with
+    | some binner => do
+      let binner' ← bidirInner look bits binner
+      setCfg l "backward_layer" binner'
+    | none => pure l
+  | _ => throw .typeError
 
 /-- Bidirectional (utils.py:850-863) -/
 def bidirBranch (F : Flags) (look : Look) (st : Option String) (l : PyVal) : BranchRes := do
   let cfg ← sub l "config"
   let inner ← sub cfg "layer"
-  let iname ← sub (← sub inner "config") "name"
-  let entry ← look "QBidirectional" none
-  hashable iname
-  let inner' ← quantizeRnn (fun _ p => paramOf entry p) F.actBits inner
+  let inner' ← bidirInner look F.actBits inner
   let l ← setCfg l "layer" inner'
-  let cfg ← sub l "config"
-  let l ←
-    match cfg with
-    | .dict d =>
-      match dget d "backward_layer" with
-      | some binner => do
-        let bname ← sub (← sub binner "config") "name"
-        let entry ← look "QBidirectional" none
-        hashable bname
-        let binner' ← quantizeRnn (fun _ p => paramOf entry p) F.actBits binner
-        setCfg l "backward_layer" binner'
-      | none => pure l
-    | _ => throw .typeError
+  let l ← bidirBackward look F.actBits l
   let l ← setCls l "QBidirectional"
   pure (l, st, true)
 
+/-- which of QActivation / QAdaptiveActivation is consulted first (utils.py:866-877) -/
+def actLookup (F : Flags) (look : Look) : R (PyVal × Bool) :=
+  if F.preferAdaptive then do
+    let q ← look "QAdaptiveActivation" none
+    match q with
+    | .none => do pure (← look "QActivation" none, false)
+    | _ => pure (q, true)
+  else do
+    let q ← look "QActivation" none
+    match q with
+    | .none => do pure (← look "QAdaptiveActivation" none, true)
+    | _ => pure (q, false)
+
+/-- `not isinstance(quantizer, dict) or quantizer.get(layer_config["activation"], None)` -/
+def actCond (quantizer : PyVal) (l : PyVal) : R Bool :=
+  match quantizer with
+  | .dict qd => do
+    let a ← sub (← sub l "config") "activation"
+    pure (truthy (← getV qd a .none))
+  | _ => pure true
+
+/-- `if isinstance(quantizer, dict): quantizer = quantizer[layer_config["activation"]]` -/
+def actPick (quantizer : PyVal) (l : PyVal) : R PyVal :=
+  match quantizer with
+  | .dict qd => do
+    let a ← sub (← sub l "config") "activation"
+    getV qd a .none      -- present, because `.get` was truthy
+  | _ => pure quantizer
+
+/-- the QAdaptiveActivation arm (utils.py:895-900) -/
+def adaptiveApply (quantizer : PyVal) (l : PyVal) : R PyVal :=
+  match quantizer with
+  | .str s =>
+    if s.toList.contains ',' then throw .assertionError
+    else do
+      let tb ← intOfDigits (digitsOnly s)
+      let l ← setCfg l "total_bits" (.num tb 0)
+      setCfg l "activation" (.str (stripParams s))
+  | _ => throw .attributeError      -- no `.find` on a non-string
+
+/-- lines 890-902 -/
+def activationApply (F : Flags) (quantizer : PyVal) (isAd : Bool) (l : PyVal) : R PyVal := do
+  let l ← setCls l (if isAd then "QAdaptiveActivation" else "QActivation")
+  let quantizer ← actPick quantizer l
+  if truthy quantizer then
+    (if isAd then adaptiveApply quantizer l else setCfg l "activation" quantizer)
+  else quantActIn l F.actBits
+
 /-- Activation (utils.py:865-902) -/
 def activationBranch (F : Flags) (look : Look) (st : Option String) (l : PyVal) : BranchRes := do
-  let (quantizer, isAd) ←
-    if F.preferAdaptive then do
-      let q ← look "QAdaptiveActivation" none
-      match q with
-      | .none => do pure (← look "QActivation" none, false)
-      | _ => pure (q, true)
-    else do
-      let q ← look "QActivation" none
-      match q with
-      | .none => do pure (← look "QAdaptiveActivation" none, true)
-      | _ => pure (q, false)
-  match quantizer with
+  let qa ← actLookup F look
+  match qa.1 with
   | .none => pure (l, st, false)
   | _ =>
-    let cond ←
-      match quantizer with
-      | .dict qd => do
-        let a ← sub (← sub l "config") "activation"
-        pure (truthy (← getV qd a .none))
-      | _ => pure true
-    if cond then do
-      let l ← setCls l (if isAd then "QAdaptiveActivation" else "QActivation")
-      let quantizer ←
-        match quantizer with
-        | .dict qd => do
-          let a ← sub (← sub l "config") "activation"
-          -- quantizer[activation]: present, because `.get` was truthy
-          getV qd a .none
-        | _ => pure quantizer
-      if truthy quantizer then do
-        if isAd then do
-          match quantizer with
-          | .str s =>
-            if s.toList.contains ',' then throw .assertionError
-            else do
-              let tb ← intOfDigits (digitsOnly s)
-              let l ← setCfg l "total_bits" (.num tb 0)
-              let l ← setCfg l "activation" (.str (stripParams s))
-              pure (l, st, true)
-          | _ => throw .attributeError      -- no `.find` on a non-string
-        else do
-          let l ← setCfg l "activation" quantizer
-          pure (l, st, true)
-      else do
-        let l ← quantActIn l F.actBits
-        pure (l, st, true)
+    let cond ← actCond qa.1 l
+    if cond then do pure (← activationApply F qa.1 qa.2 l, st, true)
     else pure (l, st, true)
 
-/-- ReLU / relu / LeakyReLU (utils.py:905-955), as written: the class name is overwritten
-    BEFORE the `if layer["class_name"] == ...` chain that deletes the ReLU-specific keys, so
-    that chain always takes its `else` arm. -/
+/-- which key holds the negative slope, per class (utils.py:912-921) -/
+def reluSlope (cn : String) (cfg : PyVal) : R PyVal :=
+  if cn = "LeakyReLU" then sub cfg "alpha"
+  else if cn = "relu" then do
+    let _ ← sub cfg "max_value"
+    let a ← sub cfg "alpha"
+    let _ ← sub cfg "threshold"
+    pure a
+  else do
+    let _ ← sub cfg "max_value"
+    let a ← sub cfg "negative_slope"
+    let _ ← sub cfg "threshold"
+    pure a
+
+/-- `not isinstance(quantizer, dict) or quantizer.get(q_name, None)` -/
+def reluCond (quantizer : PyVal) (qn : String) : Bool :=
+  match quantizer with
+  | .dict qd => truthy ((dget qd qn).getD .none)
+  | _ => true
+
+/-- "Remove relu specific configurations" (utils.py:939-948), dispatching on the CURRENT
+    value of `layer["class_name"]` -/
+def reluDelete (l : PyVal) : R PyVal := do
+  let cls2 ← sub l "class_name"
+  match cls2 with
+  | .str "LeakyReLU" => delCfg l "alpha"
+  | .str "relu" => do
+    let l ← delCfg l "max_value"
+    let l ← delCfg l "alpha"
+    delCfg l "threshold"
+  | _ => do
+    let l ← delCfg l "max_value"
+    let l ← delCfg l "negative_slope"
+    delCfg l "threshold"
+
+/-- `if isinstance(quantizer, dict): quantizer = quantizer[q_name]` -/
+def reluPick (quantizer : PyVal) (qn : String) : R PyVal :=
+  match quantizer with
+  | .dict qd => sub (.dict qd) qn
+  | _ => pure quantizer
+
+/-- lines 934-955: the class name is overwritten BEFORE the keys are deleted -/
+def reluApply (F : Flags) (quantizer : PyVal) (qn : String) (l : PyVal) : R PyVal := do
+  let l ← setCls l "QActivation"
+  let l ← reluDelete l
+  let quantizer ← reluPick quantizer qn
+  if truthy quantizer then setCfg l "activation" quantizer else quantActIn l F.actBits
+
+/-- `if negative_slope > 0: q_name = "leakyrelu" else: q_name = "relu"` -/
+def reluQName (pos : Bool) : String := if pos then "leakyrelu" else "relu"
+
+/-- lines 931-955 -/
+def reluFinish (F : Flags) (quantizer : PyVal) (qn : String) (l : PyVal) : BranchRes :=
+  if reluCond quantizer qn then do pure (← reluApply F quantizer qn l, some qn, true)
+  else pure (l, some qn, true)
+
+/-- ReLU / relu / LeakyReLU (utils.py:905-955), as written -/
 def reluBranch (F : Flags) (look : Look) (cn : String) (l : PyVal) (st : Option String) : BranchRes := do
   let quantizer ← look "QActivation" none
   match quantizer with
   | .none => pure (l, st, false)
   | _ =>
     let cfg ← sub l "config"
-    let negSlope ←
-      if cn = "LeakyReLU" then sub cfg "alpha"
-      else if cn = "relu" then do
-        let _ ← sub cfg "max_value"
-        let a ← sub cfg "alpha"
-        let _ ← sub cfg "threshold"
-        pure a
-      else do
-        let _ ← sub cfg "max_value"
-        let a ← sub cfg "negative_slope"
-        let _ ← sub cfg "threshold"
-        pure a
-    let qn := if (← gtZero negSlope) then "leakyrelu" else "relu"
-    let cond ←
-      match quantizer with
-      | .dict qd => pure (truthy ((dget qd qn).getD .none))
-      | _ => pure true
-    if cond then do
-      let l ← setCls l "QActivation"
-      let cls2 ← sub l "class_name"          -- re-read: now "QActivation"
-      let l ←
-        match cls2 with
-        | .str "LeakyReLU" => delCfg l "alpha"
-        | .str "relu" => do
-          let l ← delCfg l "max_value"
-          let l ← delCfg l "alpha"
-          delCfg l "threshold"
-        | _ => do
-          let l ← delCfg l "max_value"
-          let l ← delCfg l "negative_slope"
-          delCfg l "threshold"
-      let quantizer ←
-        match quantizer with
-        | .dict qd => sub (.dict qd) qn
-        | _ => pure quantizer
-      let l ← if truthy quantizer then setCfg l "activation" quantizer else quantActIn l F.actBits
-      pure (l, some qn, true)
-    else pure (l, some qn, true)
+    let negSlope ← reluSlope cn cfg
+    let pos ← gtZero negSlope
+    reluFinish F quantizer (reluQName pos) l
+
+/-- lines 967-985 -/
+def bnApply (look : Look) (l : PyVal) : R PyVal := do
+  let l ← setCls l "QBatchNormalization"
+  let g ← look "QBatchNormalization" (some "gamma_quantizer")
+  let b ← look "QBatchNormalization" (some "beta_quantizer")
+  let m ← look "QBatchNormalization" (some "mean_quantizer")
+  let v ← look "QBatchNormalization" (some "variance_quantizer")
+  let l ← setCfg l "gamma_quantizer" g
+  let l ← setCfg l "beta_quantizer" b
+  let l ← setCfg l "mean_quantizer" m
+  setCfg l "variance_quantizer" v
 
 /-- BatchNormalization (utils.py:957-985).  `bnIn` = the membership test
     `name in quantizer_config or "QBatchNormalization" in quantizer_config`. -/
 def bnBranch (look : Look) (bnIn : R Bool) (st : Option String) (l : PyVal) : BranchRes := do
-  if !(← bnIn) then pure (l, st, false)
-  else do
-    let l ← setCls l "QBatchNormalization"
-    let g ← look "QBatchNormalization" (some "gamma_quantizer")
-    let b ← look "QBatchNormalization" (some "beta_quantizer")
-    let m ← look "QBatchNormalization" (some "mean_quantizer")
-    let v ← look "QBatchNormalization" (some "variance_quantizer")
-    let l ← setCfg l "gamma_quantizer" g
-    let l ← setCfg l "beta_quantizer" b
-    let l ← setCfg l "mean_quantizer" m
-    let l ← setCfg l "variance_quantizer" v
-    pure (l, st, true)
+  let present ← bnIn
+  if present then do pure (← bnApply look l, st, true)
+  else pure (l, st, false)
+
+/-- lines 997-1008 -/
+def poolApply (F : Flags) (look : Look) (qn : String) (aq : PyVal) (l : PyVal) : R PyVal := do
+  let l ← setCls l qn
+  let l ← setCfg l "average_quantizer" aq
+  actStep look qn F.actBits l
 
 /-- AveragePooling2D / GlobalAveragePooling2D (utils.py:987-1008) -/
 def poolBranch (F : Flags) (look : Look) (cn : String) (l : PyVal) : BranchRes := do
@@ -434,12 +505,7 @@ def poolBranch (F : Flags) (look : Look) (cn : String) (l : PyVal) : BranchRes :
   let aq ← look qn (some "average_quantizer")
   match aq with
   | .none => pure (l, some qn, false)
-  | _ =>
-    let l ← setCls l qn
-    let l ← setCfg l "average_quantizer" aq
-    let q ← look qn (some "activation_quantizer")
-    let l ← if truthy q then setCfg l "activation" q else quantActIn l F.actBits
-    pure (l, some qn, true)
+  | _ => do pure (← poolApply F look qn aq l, some qn, true)
 
 def denseLike : List String :=
   ["Dense", "Conv1D", "Conv2D", "Conv2DTranspose", "SeparableConv1D", "SeparableConv2D"]
@@ -456,8 +522,7 @@ def branch (F : Flags) (look : Look) (bnIn : R Bool) (st : Option String) (l : P
     else if cn = "DepthwiseConv2D" then
       convBranch F look "depthwise_quantizer" true "QDepthwiseConv2DBatchnorm" "QDepthwiseConv2D" l
     else if cn = "SimpleRNN" ∨ cn = "LSTM" ∨ cn = "GRU" then do
-      let l ← quantizeRnn look F.actBits l
-      pure (l, st, true)
+      pure (← quantizeRnn look F.actBits l, st, true)
     else if cn = "Bidirectional" then bidirBranch F look st l
     else if cn = "Activation" then activationBranch F look st l
     else if cn = "ReLU" ∨ cn = "relu" ∨ cn = "LeakyReLU" then reluBranch F look cn l st
